@@ -31,7 +31,7 @@ pub fn ensure() {
     let mut argv: Vec<*const libc::c_char> = args.iter().map(|a| a.as_ptr()).collect();
     argv.push(std::ptr::null());
     // fixed, minimal environment (keeps stack layout identical between run and replay)
-    let keep = ["VERIF_SEED", "VERIF_TIER", "VSIM_WORKERS", "VSIM_RUNS", "VSIM_DEBUG", "RUST_BACKTRACE"];
+    let keep = ["VERIF_SEED", "VERIF_TIER", "VSIM_WORKERS", "VSIM_RUNS", "VSIM_DEBUG", "VSIM_RUN_TIMEOUT_MS", "RUST_BACKTRACE"];
     let mut envs: Vec<CString> = vec![
         CString::new(format!("{}=1", MARK)).unwrap(),
         CString::new("PATH=/usr/bin:/bin").unwrap(),
